@@ -139,6 +139,31 @@ taskreport {report_id} "{report_id}" {{
     return temp_file, report_id
 
 
+def _remove_temp_paths(*paths: Optional[Path]) -> None:
+    """
+    Best-effort removal of the per-invocation temporary files and directories.
+
+    Each path is handled on its own, so one entry that cannot be removed does
+    not keep the others from being removed. An interrupt that arrives during the
+    cleanup is honoured after the remaining entries have been handled.
+    """
+    interrupted: Optional[KeyboardInterrupt] = None
+    for path in paths:
+        if path is None:
+            continue
+        try:
+            if path.is_dir():
+                shutil.rmtree(path, ignore_errors=True)
+            else:
+                path.unlink(missing_ok=True)
+        except OSError:
+            pass
+        except KeyboardInterrupt as e:
+            interrupted = e
+    if interrupted is not None:
+        raise interrupted
+
+
 def find_output_files(tjp_path: Path, output_format: str, report_id: str = "") -> list[Path]:
     """
     Find generated output files for a .tjp file.
@@ -399,26 +424,9 @@ def report(ctx: click.Context, tjp_file: Optional[str], output_csv: bool, output
             # Output to stdout (Unix way)
             click.echo(report_content)
 
-        # Clean up temp output directory (contains all generated files)
-        if temp_output_dir and temp_output_dir.exists():
-            shutil.rmtree(temp_output_dir)
-            if verbose:
-                logger.debug("Cleaned up temp output directory: %s", temp_output_dir)
-
         # Success message to stderr
         if not quiet:
             click.secho("✓ Report generation completed successfully", fg="green", err=True)
-
-        # Cleanup temp files
-        if temp_file and temp_file.exists():
-            temp_file.unlink()
-            if verbose:
-                logger.debug("Cleaned up temporary file: %s", temp_file)
-
-        if stdin_temp_file and stdin_temp_file.exists():
-            stdin_temp_file.unlink()
-            if verbose:
-                logger.debug("Cleaned up stdin temporary file: %s", stdin_temp_file)
 
         sys.exit(0)
 
@@ -427,28 +435,12 @@ def report(ctx: click.Context, tjp_file: Optional[str], output_csv: bool, output
         if verbose:
             logger.exception("File validation failed")
 
-        # Cleanup temp files and directories
-        if temp_file and temp_file.exists():
-            temp_file.unlink()
-        if stdin_temp_file and stdin_temp_file.exists():
-            stdin_temp_file.unlink()
-        if temp_output_dir and temp_output_dir.exists():
-            shutil.rmtree(temp_output_dir)
-
         sys.exit(1)
 
     except ReportGenerationError as e:
         click.secho(f"Error: {e}", fg="red", err=True)
         if verbose:
             logger.exception("Report generation failed")
-
-        # Cleanup temp files and directories
-        if temp_file and temp_file.exists():
-            temp_file.unlink()
-        if stdin_temp_file and stdin_temp_file.exists():
-            stdin_temp_file.unlink()
-        if temp_output_dir and temp_output_dir.exists():
-            shutil.rmtree(temp_output_dir)
 
         sys.exit(2)
 
@@ -457,15 +449,15 @@ def report(ctx: click.Context, tjp_file: Optional[str], output_csv: bool, output
         if verbose:
             logger.exception("Unexpected error occurred")
 
-        # Cleanup temp files and directories
-        if temp_file and temp_file.exists():
-            temp_file.unlink()
-        if stdin_temp_file and stdin_temp_file.exists():
-            stdin_temp_file.unlink()
-        if temp_output_dir and temp_output_dir.exists():
-            shutil.rmtree(temp_output_dir)
-
         sys.exit(2)
+
+    finally:
+        # Temp files and directories are removed here and only here, once, on every
+        # exit path - including the ones that bypass the handlers above (SystemExit
+        # raised inside the engine, KeyboardInterrupt)
+        _remove_temp_paths(temp_file, stdin_temp_file, temp_output_dir)
+        if verbose:
+            logger.debug("Cleaned up temporary files")
 
 
 @cli.command()
